@@ -215,7 +215,7 @@ def long_charged(draw, min_len=129, max_len=400):
     if kind == "pow2-charged":
         # the NUMBER of charged residues sits on or next to a power of two (block-wise or fixed-width accumulation boundaries)
         k = draw(st.sampled_from([k0 for k0 in (127, 128, 129, 255, 256, 257, 258, 511, 512, 513) if k0 <= max_len]))
-        z = draw(st.integers(0, min(20, max_len - k)))
+        z = draw(st.integers(max(0, min_len - k), max(max(0, min_len - k), min(20, max_len - k))))
         lst0 = [draw(st.sampled_from("KRDE")) for _ in range(k)] + [draw(st.sampled_from("GSPQ")) for _ in range(z)]
         return "".join(draw(st.permutations(lst0)))
     if kind == "homopolymer":
